@@ -413,7 +413,7 @@ func c09RoundTrip(r *rt.Run) {
 	}
 }
 
-var c09UnknownNames = []string{"X-Foo", "X-Bar", "Homepage", "Vcs-Git", "Zzz", "X-Count-2", "Epoch", "Revision", "OS", "CPU", "Order", "Values"}
+var c09UnknownNames = []string{"X-Foo", "X-Bar", "Homepage", "Vcs-Git", "Zzz", "X-Count-2", "Epoch", "Revision", "OS", "CPU", "Order", "Values", "x-note", "TAGS", "package", "X-NOTE"}
 
 func c09PassThrough(r *rt.Run) {
 	t := r.T
@@ -515,6 +515,20 @@ func c09PassThrough(r *rt.Run) {
 		r.Violate("C09/marshal-error", "pass-through", "%v", err)
 		return
 	}
+	// marshalling is repeatable: a second and third Marshal of the same value
+	// give the same text (and leave the embedded Paragraph alone)
+	for rep := 2; rep <= 3; rep++ {
+		w2 := simio.NewWriter(r, "sink-again")
+		err, task = c09Marshal(r, &s, w2)
+		if taskTrouble(r, "C09", "pass-through/Marshal-again", task) {
+			return
+		}
+		if err != nil || string(w2.Buf) != string(w.Buf) {
+			r.Violate("C09/marshal-not-repeatable", "pass-through", "Marshal #%d of the same value (err=%v) wrote\n%q\nbut the first Marshal wrote\n%q", rep, err, clip(string(w2.Buf), 400), clip(string(w.Buf), 400))
+			return
+		}
+	}
+	r.Probe("marshalled-repeatedly")
 	back, rerr, _ := readParas(r, w.Buf)
 	if rerr != nil || len(back) != 1 {
 		r.Violate("C09/marshalled-text-unreadable", "pass-through", "err=%v paragraphs=%d\n%q", rerr, len(back), clip(string(w.Buf), 400))
@@ -557,6 +571,12 @@ func c09PassThrough(r *rt.Run) {
 		if k == "Version" {
 			clearedVer = true
 		}
+	}
+	if v, ok := b.Values["Package"]; !ok || v != s.Package {
+		r.Violate("C09/known-field-stale", "Package-missing", "struct field Package=%q but the marshalled text has %q (present=%v); unknown fields: %v\nout:\n%q", s.Package, v, ok, wantUnk, clip(string(w.Buf), 300))
+	}
+	if s.Note != "" && b.Values["X-Note"] != s.Note {
+		r.Violate("C09/known-field-stale", "X-Note-missing", "struct field Note=%q but the marshalled text has %q; unknown fields: %v\nout:\n%q", s.Note, b.Values["X-Note"], wantUnk, clip(string(w.Buf), 300))
 	}
 	if present["Version"] && !clearedVer && b.Values["Version"] == "" {
 		r.Violate("C09/field-missing", "pass-through/Version", "Version vanished")
@@ -673,5 +693,5 @@ func init() {
 		},
 		Assumptions: []string{"'optional zero fields are omitted' is demanded for fields whose text form is empty when zero (strings, lists, versions, dependencies); the pinned test suite requires false booleans to be written as 'no', and zero integers are written as '0'", "architecture values are restricted to names whose String() form re-parses to the same value (wildcard and three-part names lose information in Arch.String, which belongs to the not-applicable properties C05/C06)"},
 	})
-	propProbes["C09"] = []string{"list-elements-independent", "several-known-fields-cleared", "required-empty-list", "multi-line-string-field", "paragraph-api", "missing-required-field", "unknown-fields-present", "known-field-cleared", "nested-plain-struct", "pointer-fields"}
+	propProbes["C09"] = []string{"marshalled-repeatedly", "list-elements-independent", "several-known-fields-cleared", "required-empty-list", "multi-line-string-field", "paragraph-api", "missing-required-field", "unknown-fields-present", "known-field-cleared", "nested-plain-struct", "pointer-fields"}
 }
